@@ -30,7 +30,7 @@ def required_counters(tier):
     return ["inject:call", "inject:after-sr", "inject:mid-body", "inject:close", "disconnect:RST", "disconnect:CLOSE",
             "close-events", "file-close-events", "outcome:500", "outcome:truncated", "probe-served", "class:Exception",
             "class:OSError", "class:BaseException", "expose:on", "expose:off", "logsock:on", "logsock:off",
-            "disconnect-before-output", "disconnect-raced-application-output"]
+            "disconnect-before-output", "disconnect-raced-application-output", "pipelined-file-teardowns"]
 
 
 def base_programs():
@@ -117,12 +117,16 @@ def run_case(case, strat=None, record_pilot=False):
     w = World(app, strategy=R.make_strategy(strat or {"kind": "np"}), adj_kw=adj, sndbuf=case.get("sndbuf", 600), step_limit=150000,
               record_pilot=record_pilot)
 
+    prog2 = case.get("prog2")
+
     def pick(environ, n):
+        if environ["PATH_INFO"] == "/case2":
+            return prog2
         return PROBE if environ["PATH_INFO"] == "/probe" else prog
 
     gate = w.Event()
     holder["app"] = apps.make_app(pick, log, world=w, events={"gate": gate},
-                                  rid_of=lambda env, n: "probe" if env["PATH_INFO"] == "/probe" else "case")
+                                  rid_of=lambda env, n: {"/probe": "probe", "/case2": "case2"}.get(env["PATH_INFO"], "case"))
     if case.get("disconnect"):
         kind, k = case["disconnect"]
         w.net.faults[(0, "send", k)] = kind
@@ -132,6 +136,19 @@ def run_case(case, strat=None, record_pilot=False):
     def client():
         c = w.connect()
         v = case.get("version", "1.1")
+        if case.get("pipeline_files"):
+            # two pipelined file responses to a client that never reads; once both are queued the
+            # client resets the connection: every file handed over must be closed at teardown
+            c.send(b"GET /case HTTP/1.1\r\nHost: h\r\n\r\nGET /case2 HTTP/1.1\r\nHost: h\r\n\r\n")
+            w.wait_until(lambda: log.count("return", "case2") > 0, timeout=20.0)
+            w.sleep(1.0)
+            c.reset() if case["pipeline_files"] == "RST" else c.close()
+            w.sleep(5.0)
+            out["received"] = bytes(c.conn.client_received)
+            out["eof"] = True
+            out["client"] = c
+            done.set()
+            return
         c.send(("GET /case HTTP/%s\r\nHost: h\r\n\r\n" % v).encode())
         if early:
             # wait until the application is running, go away, give the server (virtual)
@@ -231,6 +248,12 @@ def judge(case, o, acc):
             out.append(("file-not-closed", "the file handed to wsgi.file_wrapper was never closed"))
         elif fcloses > 1:
             acc.count("file-closed-more-than-once")
+    if case.get("pipeline_files"):
+        acc.count("pipelined-file-teardowns")
+        if log.count("return", "case2") > 0 and log.count("file-close", "case2") < 1:
+            out.append(("file-not-closed:behind-a-failing-close",
+                        "the second pipelined file was never closed after the first file's close() raised at teardown"))
+        return out
     if disconnect:
         acc.count("disconnect:" + disconnect[0])
         return out
@@ -314,6 +337,7 @@ def plan(tier, seed):
         specs.append({"mode": "inject", "part": i, "parts": shards, "sample": 1, "seed": seed, "schedules": 1 if tier == "quick" else 4})
     for i in range(4):
         specs.append({"mode": "early", "part": i, "parts": 4, "schedules": 1 if tier == "quick" else 4, "seed": seed})
+    specs.append({"mode": "pipelined-files", "schedules": 2 if tier == "quick" else 8, "seed": seed, "part": 0})
     nr = 16 if tier == "quick" else 32
     for i in range(nr):
         specs.append({"mode": "early-race", "part": i, "parts": nr, "cap": 40 if tier == "quick" else 400, "seed": seed})
@@ -360,6 +384,23 @@ def run_shard(spec):
                     run_and_judge(acc, case, f"{pi}|early|{kind}|{sch}", strat)
                     acc.count("disconnect-before-output")
         acc.sample({"early_disconnect": "client goes away while the application runs, before any output (lookahead 1)"})
+    elif spec["mode"] == "pipelined-files":
+        big = "".join(chr(65 + i % 26) for i in range(1500))
+        k = 0
+        for raises_first in (True, False):
+            for how in ("RST", "CLOSE"):
+                for size2 in (1500, 10):
+                    p1 = {"status": "200 OK", "headers": [["X-P", "file-a"]], "cl": 1500, "sr": "call", "steps": [], "ret": "fw_seek",
+                          "fw": {"content": big, "pos": 0, "close_raises": raises_first}, "close": "ok", "exc": "Exception"}
+                    p2 = {"status": "200 OK", "headers": [["X-P", "file-b"]], "cl": size2, "sr": "call", "steps": [], "ret": "fw_seek",
+                          "fw": {"content": big[:size2], "pos": 0, "close_raises": not raises_first and size2 == 10}, "close": "ok", "exc": "Exception"}
+                    for sch in range(spec["schedules"]):
+                        k += 1
+                        case = {"prog": p1, "prog2": p2, "exc": "Exception", "expose": False, "logsock": bool(k % 2), "version": "1.1",
+                                "pipeline_files": how, "sndbuf": 600}
+                        strat = None if sch == 0 else {"kind": "random", "seed": spec["seed"] * 131 + k, "p": [0.02, 0.1, 0.3][sch % 3]}
+                        run_and_judge(acc, case, f"pf|{raises_first}|{how}|{size2}|{sch}", strat)
+        acc.sample({"pipelined_files": "two file_wrapper responses queued to a client that never reads, then a reset; close() of one file raises"})
     elif spec["mode"] == "early-race":
         # the client goes away and the application carries on at the same moment: every single
         # pre-emption of that schedule (capped), so that the worker's output overlaps the I/O
